@@ -308,7 +308,13 @@ func c12Body(c *ev.Ctx) {
 	c.Set("construction_paths", np)
 	c.Set("map_iterations_observed", int64(iters))
 	c.Set("largest_map_log2_buckets", int64(maxB))
-	c.Set("distinct_digests_per_config", func() map[string]int { m := map[string]int{}; for k, v := range digests { m[k] = len(v) }; return m }())
+	c.Set("distinct_digests_per_config", func() map[string]int {
+		m := map[string]int{}
+		for k, v := range digests {
+			m[k] = len(v)
+		}
+		return m
+	}())
 	c.Set("exhaustive", done == len(runs))
 	c.Sample(runs[0])
 	c.Sample(runs[len(runs)/2])
